@@ -15,6 +15,7 @@ import (
 	"sort"
 	"strings"
 	"testing"
+	"time"
 
 	"github.com/boz/kcache"
 	"github.com/boz/kcache/filter"
@@ -102,7 +103,7 @@ func c07Step(w *world, n *node, next int) c07Result {
 			w.fail("Refilter -> %s on %s: cache holds %s which the filter rejects or the parent lacks", w.filtName(next), n.path(), objStr(a))
 		}
 	}
-	if prev >= 0 {
+	if prev >= 0 && !w.markerBlind(n.parent) {
 		res.equalFilter = filter.FiltersEqual(w.fam[prev].build(), w.fam[next].build())
 		if res.equalFilter && (len(evs) != 0 || res.removed+res.added != 0) {
 			w.fail("Refilter to an equal filter (%s -> %s) on %s emitted %v", w.filtName(prev), w.filtName(next), n.path(), got)
@@ -243,6 +244,36 @@ func TestC07_Random(t *testing.T) {
 				chain++
 				both = both || (r.removed > 0 && r.added > 0)
 				equalNonEmpty = equalNonEmpty || (r.equalFilter && r.retained > 0)
+			},
+			"rawAllAndBack": func(t *rapid.T) {
+				// refilter to the library's own accept-nothing filter (for a for-filter node: back to its
+				// construction-time filter) and then to a family filter again: both must take effect
+				if rapid.IntRange(0, 2).Draw(t, "rarely") != 0 {
+					t.Skip("not now")
+				}
+				w.barrier()
+				i := n.eventCount()
+				before := listContent(w, n.leaf.Cache(), n.path())
+				w.refilterRawAll(n)
+				w.checkQuiet() // polls until the cache is empty
+				// no marker reaches this node now: wait for its Delete events instead of a barrier
+				deadline := time.Now().Add(wedgeBoundNow())
+				for len(n.eventsFrom(i)) < len(before) && time.Now().Before(deadline) {
+					time.Sleep(100 * time.Microsecond)
+				}
+				evs := n.eventsFrom(i)
+				if len(evs) != len(before) {
+					w.fail("Refilter to filter.All() on %s holding %s emitted %d events, expected one Delete per cached object", n.path(), fmtContent(before), len(evs))
+				}
+				for _, e := range evs {
+					if e.Type != kcache.EventTypeDelete {
+						w.fail("Refilter to filter.All() on %s emitted %s", n.path(), e)
+					}
+				}
+				next := rapid.IntRange(0, len(w.fam)-1).Draw(t, "f")
+				w.refilter(n, next)
+				w.checkQuiet()
+				chain++
 			},
 			"refilterParent": func(t *rapid.T) {
 				if depth != 2 {
